@@ -342,7 +342,7 @@ Proof.
   - rewrite !n_empty_eq, !count_app, !app_length, !count_cons. cbn [length is_sfull is_sempty negb].
     pose proof (count_le_length is_sfull pre). pose proof (count_le_length is_sfull post). lia.
 Qed.
-Theorem sstep_never_more f s o : n_empty_slots (sstep f s o) <= n_empty_slots s.
+Theorem sstep_never_more {A} (f : list (list A)) s o : n_empty_slots (sstep f s o) <= n_empty_slots s.
 Proof.
   destruct o; cbn [sstep]; try lia; try apply s_push_never_more; try apply s_insert_never_more; try apply s_remove_never_more.
   destruct (nth_error f i) as [[|x [|y e]]|]; try lia. apply s_remove_never_more.
